@@ -2524,6 +2524,121 @@ def inline_trivial_constructors(facts):
     return n
 
 
+def inline_unit_tries(hir, facts, depth=0, counter=None):
+    """`helper(args)?;` whose value is discarded, helper a private crate function returning Result<_, Error>: the statement is
+    replaced by the helper's body in early-return form (`Ok(_)` in result position -> nothing, `Err(e)` -> `return Err(e)`,
+    if / match / block position-wise), recursively.  The `?` applies no conversion (same error type), so the outer function
+    returns exactly what it returned before.  Used by rules that read a validator's decision atoms from its typed HIR."""
+    counter = counter if counter is not None else [0]
+
+    def result_form(e):
+        """statement list equivalent to `e?;` for a Result-valued expression e, or None"""
+        e0 = strip_refs(e)
+        k = e0.get('k')
+        if k == 'call' and isinstance(e0.get('f'), dict) and e0['f'].get('k') == 'path':
+            pth = e0['f'].get('path') or ''
+            if pth.endswith('::Ok'):
+                return []
+            if pth.endswith('::Err'):
+                return [{'k': 'expr', 'e': {'k': 'ret', 'x': e0, 'line': e0.get('line')}}]
+            g = facts.fns.get(pth)
+            if g is not None and depth < 3:
+                inl = inline_call(e0, g)
+                if inl is not None:
+                    return inl
+            return None
+        if k == 'block' and not e0.get('unsafe'):
+            body = rec_block(e0)
+            if body.get('tail') is None:
+                return None
+            t = result_form(body['tail'])
+            if t is None:
+                return None
+            return list(body.get('stmts', [])) + t
+        if k == 'if' and 'else' in e0:
+            a, b = result_form(e0['then']), result_form(e0['else'])
+            if a is None or b is None:
+                return None
+            n2 = dict(e0)
+            n2['then'] = {'k': 'block', 'stmts': a, 'tail': None, 'ty': '()'}
+            n2['else'] = {'k': 'block', 'stmts': b, 'tail': None, 'ty': '()'}
+            n2['ty'] = '()'
+            return [{'k': 'expr', 'e': n2}]
+        if k == 'match' and not str(e0.get('source', '')).startswith(('TryDesugar', 'ForLoopDesugar')):
+            arms = []
+            for a in e0.get('arms', []):
+                r = result_form(a['body'])
+                if r is None:
+                    return None
+                a2 = dict(a)
+                a2['body'] = {'k': 'block', 'stmts': r, 'tail': None, 'ty': '()'}
+                arms.append(a2)
+            n2 = dict(e0)
+            n2['arms'] = arms
+            n2['ty'] = '()'
+            return [{'k': 'expr', 'e': n2}]
+        return None
+
+    def inline_call(call, g):
+        if g.reachable or g.impl_trait or g.in_trait or g.kind not in ('Fn', 'AssocFn') or not g.hir \
+                or not (g.output or '').startswith('std::result::Result<') or not (g.output or '').endswith(', Error>'):
+            return None
+        params = g.hir.get('params', [])
+        args = call.get('args', [])
+        if len(params) != len(args) or not all(p.get('k') == 'bind' and p.get('mode', '').endswith('Not)') for p in params):
+            return None
+        if hir_find(g.hir['value'], lambda m: m.get('k') == 'closure'):
+            return None
+        from .c05 import subst_hir
+        counter[0] += 1
+        body = subst_hir(g.hir['value'], {p['id']: a for p, a in zip(params, args)}, 3000000 + 10000 * counter[0])
+        sub = inline_unit_tries(body, facts, depth + 1, counter)
+        return result_form_of(sub)
+
+    def result_form_of(body):
+        return result_form(body)
+
+    def try_parts(e):
+        e0 = strip_refs(e) if isinstance(e, dict) else None
+        if not isinstance(e0, dict) or e0.get('k') != 'match' or not str(e0.get('source', '')).startswith('TryDesugar'):
+            return None
+        sc = e0.get('scrut', {})
+        if sc.get('k') == 'call' and sc['f'].get('k') == 'path' and (sc['f'].get('path') or '').endswith('Try::branch') and len(sc.get('args', [])) == 1:
+            inner = strip_refs(sc['args'][0])
+            if inner.get('k') == 'call' and isinstance(inner.get('f'), dict) and inner['f'].get('k') == 'path' and inner['f'].get('path') in facts.fns:
+                return inner
+        return None
+
+    def rec_block(b):
+        out = dict(b)
+        stmts = []
+        for st in b.get('stmts', []):
+            done = False
+            if st.get('k') == 'expr':
+                inner = try_parts(st.get('e'))
+                if inner is not None and depth < 3:
+                    r = inline_call(inner, facts.fns[inner['f']['path']])
+                    if r is not None:
+                        stmts.extend(r)
+                        done = True
+            if not done:
+                stmts.append(rec(st))
+        out['stmts'] = stmts
+        if b.get('tail') is not None:
+            out['tail'] = rec(b['tail'])
+        return out
+
+    def rec(n):
+        if isinstance(n, list):
+            return [rec(x) for x in n]
+        if not isinstance(n, dict):
+            return n
+        if n.get('k') == 'block':
+            return rec_block(n)
+        return {k: (rec(v) if isinstance(v, (dict, list)) else v) for k, v in n.items()}
+    return rec(hir)
+
+
 # --------------------------------------------------------------------------- private parameter structs
 
 
